@@ -16,6 +16,20 @@ impl core::ops::Deref for EcoString {
     fn deref(&self) -> (r: &str) ensures r@ == self@ { unimplemented!() }
 }
 
+// comparisons with string literals (`node.text() == " "`, `*text == "x"`)
+impl<'a, 'b> PartialEq<&'a str> for &'b EcoString {
+    #[verifier::external_body]
+    fn eq(&self, other: &&'a str) -> (r: bool) ensures r == (self@ == other@) { unimplemented!() }
+    #[verifier::external_body]
+    fn ne(&self, other: &&'a str) -> (r: bool) ensures r == (self@ != other@) { unimplemented!() }
+}
+impl<'a> PartialEq<&'a str> for EcoString {
+    #[verifier::external_body]
+    fn eq(&self, other: &&'a str) -> (r: bool) ensures r == (self@ == other@) { unimplemented!() }
+    #[verifier::external_body]
+    fn ne(&self, other: &&'a str) -> (r: bool) ensures r == (self@ != other@) { unimplemented!() }
+}
+
 #[derive(Clone, Copy, PartialEq, Eq)]
 pub struct Span { pub id: u64 }
 
